@@ -321,6 +321,10 @@ def l1_datasets(rng, quick):
     out.append(('tau-slightly-negative', np.column_stack([g, g[np.array(p)]]), 'boundary'))
     p = perm_with_inversions(n, n * (n - 1) // 4 - 1)
     out.append(('tau-slightly-positive', np.column_stack([g, g[np.array(p)]]), 'boundary'))
+    from copulas.utils import EPSILON
+    gg = [float(x) for x in np.linspace(EPSILON, 1.0 - EPSILON, 50)]      # data exactly on grid points: `<=` vs `<` matters
+    out.append(('points-on-grid', np.array([[gg[10], gg[10]], [gg[10], gg[20]], [gg[30], gg[20]], [gg[30], gg[40]], [gg[45], gg[45]],
+                                            [gg[0], gg[3]], [gg[48], gg[49]]]), 'boundary'))
     # refused inputs
     out.append(('constant-column', np.column_stack([np.full(6, .2), np.linspace(.1, .9, 6)]), 'refused'))
     out.append(('out-of-range', np.array([[0., 0.], [1.5, 1.], [.5, .25], [.25, .5]]), 'refused'))
@@ -553,6 +557,9 @@ def run(ctx):
         ctx.copy_src('Props/C11.v')
         proofs_ok = ctx.compile(['Gen_biv.v', 'Gen_selcop.v', 'C11.v'])
     q_ok = all(v is None for v in st_q.values())
+    for o in [o for o in ctx.obligations if not o['ok'] and o['kind'] in ('proof', 'translation')]:
+        ctx.violation('tie-broken:' + o['name'], f"{o['kind']} obligation no longer checks against the current source: {o['name']}",
+                      {'failed_obligation': o['name'], 'kind': o['kind'], 'detail': str(o.get('detail', ''))[-1500:], 'explains': o['name']}, found=False)
     ctx.rule('L1: real select_copula on (n,2) tables: library-sampled Clayton/Gumbel/Frank data at tau 0.3/0.5/0.7 (n 60-260), independent, '
              'negative dependence, ties (rounded to 1-2 decimals, exact 0 and 1), n = 2..6, tau = 0 / 1 / -1 / +-2/780, near-comonotone, '
              'refused inputs (constant column, out of range, one row, empty); captured kendalltau, Frank theta, _compute_empirical, candidate '
@@ -615,7 +622,7 @@ def run(ctx):
         recovery_table(ctx)
     ctx.trusted += ['scipy.stats.kendalltau, scipy.optimize.least_squares / integrate.quad (Frank theta) and the three cumulative_distribution '
                     'methods are oracles of the model (captured values; the cdf kernels themselves are the subject of C06)',
-                    'numpy.linspace(EPSILON, 1-EPSILON, 50) is denoted by the exact rational grid (each float point is checked to be within 2^-50 of it)',
+                    'numpy.linspace(EPSILON, 1-EPSILON, 50) is denoted by the exact rational grid (each float point is checked to be within 4 units of its dtype's precision of it)',
                     'float rounding inside the distance sums is not modelled: cases whose distances are closer than 1e-9 relative without being '
                     'equal are skipped (counted in ill_conditioned_skipped)']
     ctx.assumptions += ['Model.SelectCopula is hand-written; tied to the source by the generated Gen_selcop.v + bridge lemmas and by the L1/L2 correspondence',
@@ -874,7 +881,8 @@ def corr_l2(ctx, l2):
             ctx.case(('L2', name), {'level': 'L2', 'dataset': name, 'skipped': 'near-tie of distances'}, nontrivial=False)
             continue
         tabs = ' '.join('[' + '; '.join(f'({q(z)}, {oq(v)})' for z, v in sorted(rec['cdf'][f].items())) + ']' for f in FAMS)
-        exprs.append(f'zres (select_copula (tabcdf {tabs}) (Some ({q(tau)}, Finite {q(thF)})) {uvlist(X)} {qlist(grid)})')
+        exprs.append(f'let UV := {uvlist(X)} in let g := {qlist(grid)} in '
+                     f'(zres (select_copula (tabcdf {tabs}) (Some ({q(tau)}, Finite {q(thF)})) UV g), zemp (compute_empirical UV g))')
         meta.append((name, X, mode, gname, rec))
     outs = yield (('Cases_C11_L2', IMPORTS, exprs), {'per_file': 1, 'timeout': 600})
     n_ok = 0
@@ -884,6 +892,16 @@ def corr_l2(ctx, l2):
         if g is None:
             ctx.obligation(f'corr:L2:select_copula:{name}', False, 'correspondence', 'the model did not evaluate')
             continue
+        if 'emp' in rec and len(g) >= 6:
+            mz = [pairs(x) for x in g[2:6]]
+            iz = rec['emp']
+            ok_e = g[1] == [0] and all(len(a) == len(b) and all(close(x, y) for x, y in zip(a, b)) for a, b in zip(mz, iz))
+            ctx.obligation(f'corr:L2:compute_empirical:{name}', ok_e, 'correspondence',
+                           f'lengths model {[len(x) for x in mz]} implementation {[len(x) for x in iz]}')
+            if not ok_e:
+                fail_corr(ctx, f'corr:L2:compute_empirical-disagrees:{slug(name)}', name,
+                          f'with np.linspace -> grid {gname}: _compute_empirical differs from the model (lengths model {[len(x) for x in mz]}, '
+                          f'implementation {[len(x) for x in iz]})', X, {'emp': [[float(x) for x in part] for part in mz]}, mode, gname)
         r = g[0]
         if r[0] < 0:
             mo = ('err', r[0])
